@@ -407,8 +407,8 @@ def explain_failure(case, res, model):
     if model is not None:
         verdicts, imp = model
         out["failed_checks"] = [name for name, ok in zip(CHECKS, verdicts) if not ok]
-        out["importances_model"] = imp
-        out["importances_implementation"] = None if res["imp"] is None else [core.fstr(v) for v in res["imp"]]
+        out["importances_model"] = [float(core.frac(v)) for v in imp]
+        out["importances_implementation"] = res["imp"]
         if res["imp"] is not None and len(imp) == len(res["imp"]):
             out["importances_abs_diff"] = [float(abs(core.frac(a) - core.frac(b))) for a, b in zip(imp, res["imp"])]
     out["clauses"] = dict(crops="fit's crops are the p x p windows anchored at multiples of floor(0.8 p), image-major, row-major",
@@ -454,3 +454,12 @@ def shrink(case):
         c = copy.deepcopy(case)
         c["zero_row"] = None
         yield c
+
+
+
+def extra_checks(tier):
+    """int(patch_size * 0.80) (binary floating point) is floor(4 p / 5), the stride of the model, for every p up to 2^20"""
+    bad = [p for p in range(1, 1 << 20) if int(p * 0.80) != (4 * p) // 5]
+    if bad:
+        return [dict(property=PROP, broken="stride: int(p * 0.80) != floor(4p/5)", patch_sizes=bad[:10], no_failing_input=False)]
+    return []
